@@ -55,7 +55,7 @@ THEOREMS = [
     "BeyondVerif.C12W.from_string_keeps_valid_entry",
     "BeyondVerif.C12W.ecc_one_refused",
     "BeyondVerif.C12W.missing_line_is_parse_error",
-    "BeyondVerif.C12W.blank_drag_field_ends_generator",
+    "BeyondVerif.C12W.blank_drag_field_skipped",
     "BeyondVerif.C12W.alpha5_refused",
     "BeyondVerif.C12W.negative_norad",
 ]
@@ -127,10 +127,7 @@ NOT_COVERED = [
     "are put in front of a line 2; the entry is yielded with that name",
     "names containing line breaks, identifiers that are None: outside the model (never generated)",
 ]
-OPEN = [
-    "C12-blank-drag-field-indexerror (open finding, proposed_fixes/C12-blank-drag-field-indexerror.diff): Tle(text) raises IndexError on a blank ndotdot/6 or B* field and Tle.from_string dies with it; "
-    "the model follows the code (Err.indexError ends the generator: from_string_windows, Witness blank_drag_field_ends_generator)",
-]
+OPEN = []
 RULE = ("correspondence: records with every field drawn from its full range with edge values (0, max, 10^k boundaries, year pivot 56/57, leap days), written by an "
         "independent column-table writer; for each: parse, parse->write, write (in and out of range), all single-digit substitutions (exhaustive on 3/50 TLEs, 30 per line "
         "otherwise), deletions/insertions/truncations/leading and trailing blanks, every line-number replacement, 0/1/4-line texts, non-canonical accepted fields; _float/_unfloat "
@@ -640,7 +637,7 @@ def o_from_string_modes(out, rng):
     error='warn' logs one warning per refused entry and yields what 'ignore' yields; another comment mark"""
     import logging
     from beyond.io.tle import Tle, TleParseError
-    lines, toks = gen_line_tokens(rng, allow_blank_drag=False)
+    lines, toks = gen_line_tokens(rng)
     atts = spec_attempts(lines)
     verdicts = [try_parse("\n".join(a)) for a in atts]
     out.count(key="\n".join(lines), kind="from-string-modes")
@@ -904,7 +901,7 @@ def blank_field(l1, a, b):
 
 
 LINE_TOKENS = ["valid2", "valid3", "valid3-0", "digit", "length", "blank", "comment", "orphan1", "orphan2", "junk", "lead-blank-1", "swapped", "bad-then-1",
-               "blank-inside", "blank-drag"]
+               "blank-inside", "blank-drag", "alpha5", "blank-elnb", "unconvertible"]
 
 
 def token_lines(rng, t):
@@ -940,6 +937,31 @@ def token_lines(rng, t):
     if t == "blank-drag":
         a, b = rng.choice([(44, 52), (53, 61)])
         return [blank_field(l1, a, b), l2]
+    # entries that pass _check_validity (length, line numbers, checksums) but hold a field int()/float() cannot convert: refused with a plain
+    # ValueError, which from_string has to treat like any other refusal
+    if t == "alpha5":
+        # an Alpha-5 catalogue number, as distributed for objects above 99999 (letters count 0 in the checksum)
+        a5 = rng.choice("ABCDEFGHJKLMNPQRSTUVWXYZ") + "%04d" % rng.randint(0, 9999)
+        v1, v2 = l1[:2] + a5 + l1[7:68], l2[:2] + a5 + l2[7:68]
+        return [v1 + str(spec_checksum(v1)), v2 + str(spec_checksum(v2))]
+    if t == "blank-elnb":
+        return [blank_field(l1, 64, 68), l2]
+    if t == "unconvertible":
+        k = rng.choice(["revs", "inc", "mm", "ndot", "epoch", "etype"])
+        if k == "revs":
+            v = l2[:63] + "     "
+            return [l1, v + str(spec_checksum(v))]
+        if k == "inc":
+            v = l2[:8] + rng.choice(["  .     ", " 5 .6416", "51..6416"]) + l2[16:68]
+            return [l1, v + str(spec_checksum(v))]
+        if k == "mm":
+            v = l2[:52] + rng.choice(["15.72 25391", "   .       "]) + l2[63:68]
+            return [l1, v + str(spec_checksum(v))]
+        if k == "ndot":
+            return [blank_field(l1, 33, 43), l2]
+        if k == "epoch":
+            return [blank_field(l1, 18, 20), l2]
+        return [blank_field(l1, 62, 63), l2]
     raise ValueError(t)
 
 
@@ -981,6 +1003,8 @@ def judge_from_string_lines(out, lines, toks, tag):
         # which attempt raises on its own?
         culprit = next((a for a in atts if try_parse("\n".join(a))[0].startswith("other")), None)
         fam = "from-string-raises-" + end
+        if end == "ValueError":
+            fam = "from-string-raises-ValueError-unconvertible-field"
         if culprit is not None and end == "IndexError":
             l1 = culprit[-2] if len(culprit) >= 2 else ""
             if len(l1.strip()) == 69 and (not l1.strip()[44:52].strip() or not l1.strip()[53:61].strip()):
@@ -1000,7 +1024,7 @@ def judge_from_string_lines(out, lines, toks, tag):
 
 
 def o_from_string_lines(out, rng):
-    lines, toks = gen_line_tokens(rng, allow_blank_drag=False)
+    lines, toks = gen_line_tokens(rng)
     out.count(key="\n".join(lines), kind="from-string-lines", tokens=len(toks))
     for t in toks:
         out.tally("fs-token=" + t)
@@ -1010,12 +1034,28 @@ def o_from_string_lines(out, rng):
 def o_from_string_pairs(out, rng):
     """every ordered pair of token kinds followed by a valid entry, so that what each kind leaves behind meets each kind (the cache after a
     rejected entry, an orphan line, a name line...)"""
-    kinds = [k for k in LINE_TOKENS if k != "blank-drag"]
+    kinds = list(LINE_TOKENS)
     for a in kinds:
         for b in kinds:
             lines = token_lines(rng, a) + token_lines(rng, b) + token_lines(rng, "valid2")
             out.count(key="\n".join(lines), kind="from-string-pairs")
             judge_from_string_lines(out, lines, [a, b, "valid2"], "after-" + a + "-" + b)
+
+
+def o_from_string_unconvertible(out, rng):
+    """an entry that passes the validity check but cannot be converted, between valid entries, in every error mode"""
+    for t in ("alpha5", "blank-elnb", "unconvertible", "unconvertible", "blank-drag"):
+        lines = token_lines(rng, "valid2") + token_lines(rng, t) + token_lines(rng, rng.choice(["valid2", "valid3"]))
+        toks = ["valid2", t, "valid"]
+        out.count(key="\n".join(lines), kind="from-string-unconvertible")
+        judge_from_string_lines(out, lines, toks, "unconvertible")
+        import harness.props.C12 as me
+        saved = me.gen_line_tokens
+        me.gen_line_tokens = lambda rng, n=None, allow_blank_drag=True: (lines, toks)
+        try:
+            o_from_string_modes(out, rng)
+        finally:
+            me.gen_line_tokens = saved
 
 
 def o_from_string_blank_drag(out, rng):
@@ -1360,6 +1400,8 @@ def oracle(ctx, widened):
     for _ in range(5 if big else 1):
         o_from_string_pairs(out, rng)
     o_from_string_blank_drag(out, rng)
+    for _ in range(10 if big else 2):
+        o_from_string_unconvertible(out, rng)
     for _ in range(3000 if big else 300):
         o_history(out, rng)
     for _ in range(3 if big else 1):
@@ -1565,6 +1607,9 @@ def read_columns(tree):
 MODELLED_SOURCE = '''
 def _float(text):
     text = text.strip()
+
+    if not text:
+        raise ValueError("empty 'decimal point assumed' field")
 
     if text[0] in ("-", "+"):
         text = f"{text[0]}.{text[1:]}"
